@@ -314,12 +314,14 @@ func deepFrames(root *ssa.Function, depth int) []deepFrame {
 
 func ruleGroupNoRunAfterStop(c *Ctx, r *R) {
 	ws := groupWorkers(c)
+	defer rebindWorker(nil)
 	for _, n := range []string{"Periodic", "Trigger", "PeriodicOrTrigger"} {
 		w := ws[n]
 		if w == nil {
 			r.undecided("xsync.Group."+n+"|worker", token.NoPos, "worker closure not found")
 			continue
 		}
+		rebindWorker(w)
 		// typestate per loop iteration: bit0 = g.ctx.Err() == nil was established, bit1 = came out of a blocking select (which
 		// has a g.ctx.Done() arm) through another arm, bit2 = came through the g.ctx.Done() arm. Reset by each run of f.
 		pkg := rootFn(w).Pkg
@@ -434,6 +436,7 @@ func endsInRundefersReturn(b *ssa.BasicBlock) bool {
 
 func ruleGroupTrigger(c *Ctx, r *R) {
 	ws := groupWorkers(c)
+	defer rebindWorker(nil)
 	for _, n := range []string{"Trigger", "PeriodicOrTrigger"} {
 		fn := c.fn("xsync.Group." + n)
 		w := ws[n]
@@ -441,6 +444,7 @@ func ruleGroupTrigger(c *Ctx, r *R) {
 			r.undecided("xsync.Group."+n+"|missing", token.NoPos, "anchor not found")
 			continue
 		}
+		rebindWorker(w)
 		// channel c: make(chan struct{}, 1)
 		var mk *ssa.MakeChan
 		for _, d := range deepInstrs(fn, 2) { // possibly made by a small constructor (newTriggerChan())
@@ -515,11 +519,11 @@ func ruleGroupTrigger(c *Ctx, r *R) {
 		r.ok(okTrig, "xsync.Group."+n+"|trigger-is-nonblocking-send", fn.Pos(), "the trigger function must be exactly one non-blocking send on the trigger channel")
 		// worker: receives from c only as an arm of the blocking select that dominates the f call
 		var fcall *ssa.Call
-		instrs(w, func(b *ssa.BasicBlock, i int, in ssa.Instruction) {
-			if call, ok := in.(*ssa.Call); ok && isUserF(call) {
+		for _, di := range deepInstrs(w, 2) { // possibly in a loop helper shared by the workers
+			if call, ok := di.in.(*ssa.Call); ok && isUserF(call) {
 				fcall = call
 			}
-		})
+		}
 		nRecv := 0
 		good := true
 		why := ""
@@ -568,11 +572,11 @@ func ruleGroupTrigger(c *Ctx, r *R) {
 		r.ok(good && nRecv == 1, "xsync.Group."+n+"|single-trigger-receive", w.Pos(), "the worker must consume trigger tokens only in the select that precedes a run of f: "+why)
 		// f is called after the select on every path through the trigger arm; no go inside
 		nested := false
-		instrs(w, func(b *ssa.BasicBlock, i int, in ssa.Instruction) {
-			if _, ok := in.(*ssa.Go); ok {
+		for _, di := range deepInstrs(w, 2) {
+			if _, ok := di.in.(*ssa.Go); ok {
 				nested = true
 			}
-		})
+		}
 		r.ok(!nested && fcall != nil, "xsync.Group."+n+"|sequential-runs", w.Pos(), "runs of one f must not overlap: the worker calls f itself, sequentially")
 	}
 	_ = types.Typ
@@ -604,14 +608,16 @@ var _ = late(func() {
 	p.Rules = append(p.Rules, &Rule{ID: "C17.timer-rearmed", Floor: 2, Clause: "in Periodic and PeriodicOrTrigger the timer is re-armed (Reset) on every path from the select to the next run of f: a path that only drains the timer leaves the periodic schedule dead and the next trigger blocked on an empty timer channel",
 		Run: func(c *Ctx, r *R) {
 			ws := groupWorkers(c)
+			defer rebindWorker(nil)
 			for _, n := range []string{"Periodic", "PeriodicOrTrigger"} {
 				w := ws[n]
 				if w == nil {
 					r.undecided("xsync.Group."+n+"|worker", token.NoPos, "worker closure not found")
 					continue
 				}
+				rebindWorker(w)
 				wpkg := rootFn(w).Pkg
-				pf := &PF{N: 2, InScope: func(f *ssa.Function) bool {
+				pf := &PF{N: 2, DeepVisit: true, InScope: func(f *ssa.Function) bool {
 					return rootFn(f).Pkg == wpkg && f.Blocks != nil && f != w && f.Name() != "spawn"
 				}} // 0 = not re-armed since the select, 1 = re-armed
 				pf.Instr = func(f *ssa.Function, in ssa.Instruction, q int) (StateSet, bool) {
@@ -721,4 +727,18 @@ func thinLiteralTarget(w *ssa.Function) *ssa.Function {
 		return w
 	}
 	return origin(cal)
+}
+
+var workerUnbind func()
+
+// rebindWorker: make w the worker under analysis - the func-typed parameters of the helpers it calls stand for the literals it
+// passes (bindFuncParams); the previous worker's bindings are dropped first.
+func rebindWorker(w *ssa.Function) {
+	if workerUnbind != nil {
+		workerUnbind()
+		workerUnbind = nil
+	}
+	if w != nil {
+		workerUnbind = bindFuncParams(w)
+	}
 }
